@@ -17,7 +17,7 @@ LEVEL_TEXT = ("Part (a): byte strings the gate must reject are sent in batches t
               "warning each. Random content is sampled.")
 RULE = ("case = batch of datagram specs (kind, length, prefix, pattern seed | capture index and cut | hex) or (base frame, model code); "
         "non-trivial (a) = length within +-3 of an accepted length or correct magic, (b) = all; distinct by (kind, length, prefix, code)."
-        " Also enumerated: every single-byte extension (256 values) of a frame of each accepted length; junk of every length 0..400 that carries the magic, a header length field equal to its real length, a known model code and (every other one) a valid packet signature; all 'neighbour' model codes (byte-swapped, +-1, single-bit flips, single-byte variants of the nine known codes).")
+        " Also enumerated: every single-byte extension (256 values) of a frame of each accepted length; junk of every length 0..400 that carries the magic, a header length field equal to its real length, a known model code and (every other one) a valid packet signature; all 'neighbour' model codes (byte-swapped, +-1, single-bit flips, single-byte variants of the nine known codes); junk before and after a silence of 61 s .. 25 h of event-loop time (harness-owned loop clock); 70 000 (thorough 300 000) rejected datagrams through one bridge (soak).")
 ASSUMPTIONS = [
     "a warning counts when it is a Python warning or an aioswitcher log record >= WARNING whose text contains 'unknown' (case-insensitive)",
     "frames that pass the gate with a known model code but undecodable fields are outside this statement (C07 covers their isolation)",
@@ -97,11 +97,14 @@ def quiet(rig):
     return not rig.callbacks and not rig.warnings_so_far() and not rig.log_records and not rig.loop_errors
 
 
-async def send_batch(datagrams):
+async def send_batch(datagrams, silence=None):
     rig = udptx.Rig(1)
     await rig.start()
     try:
-        for d in datagrams:
+        for i, d in enumerate(datagrams):
+            if silence and i == silence[0]:
+                await rig.barrier()
+                await net.idle(silence[1])       # nothing arrives for a while (event-loop time, harness-owned clock)
             await rig.send(rig.ports[0], d)
         dead = await rig.barrier()
         obs = noise(rig)
@@ -144,6 +147,58 @@ def body_reject(rep, case, sub="reject"):
             cls = ("magic" if d[:2] == b"\xfe\xf0" else "no-magic") + "/" + ("accepted-length" if len(d) in refb.ACCEPTED_LENGTHS else "other-length")
             raise Violation(f"C06/reject/{what}/{cls}", {"batch": [s]}, "ignored silently", dict(o, length=len(d), head=d[:4].hex()))
     raise Violation("C06/reject/noise-only-in-batch", case, "ignored silently", obs)
+
+
+def body_silence(rep, case):
+    """Junk, a long silence, junk again - and the same with gate-passing unknown-model frames: still nothing but the
+    documented reaction."""
+    caps = refb.captures()
+    datagrams = [build(sp, caps) for sp in case["batch"]]
+    datagrams = [d for d in datagrams if must_be_rejected(d)]
+    rep.tick("after-silence", key=case, nontrivial=True, sample=case, labels=(f"silence={case['secs']}s",))
+    obs = net.run(send_batch(datagrams, silence=(case["at"] % max(1, len(datagrams)), case["secs"])), timeout=120 + 2 * case["secs"])
+    if obs["dead"]:
+        raise Violation("C06/reject/bridge-stops-delivering/after-silence", case, "sentinel delivered", obs)
+    if not obs["quiet"]:
+        what = ("callback" if obs["callbacks"] else "loop-exception" if obs["loop_errors"] else "warning")
+        raise Violation(f"C06/reject/{what}/after-silence", case, "ignored silently", obs)
+
+
+def cases_silence():
+    out = []
+    kinds = [{"kind": "len", "len": 40, "seed": 1, "prefix": "00ff"}, {"kind": "len", "len": 165, "seed": 2, "prefix": "f0fe"},
+             {"kind": "len", "len": 0, "seed": 3, "prefix": "fef0"}, {"kind": "len", "len": 160, "seed": 4, "prefix": "fef0", "header": True},
+             {"kind": "cut", "capture": 0, "delta": -1}, {"kind": "cut", "capture": 1, "delta": 2, "seed": 6}]
+    for secs in (61, 301, 3601, 90_000):
+        for at in (1, 3, 5):
+            out.append({"batch": kinds, "at": at, "secs": secs})
+    return out
+
+
+def body_soak(rep, case):
+    """Very many rejected datagrams through ONE bridge in one process: silence must not wear out."""
+    async def go():
+        rig = udptx.Rig(1)
+        rig.quiet_windows = True
+        await rig.start()
+        try:
+            port = rig.ports[0]
+            junk = [p for p in (pattern(n, n) for n in (165, 40, 168, 1, 159, 300)) if not refb.gate(p)]
+            for i in range(case["n"]):
+                await rig.send(port, junk[i % len(junk)])
+                if i % 8192 == 8191 and (rig.warnings_so_far() or rig.loop_errors or rig.callbacks):
+                    break
+            dead = await rig.barrier()
+            return dead, noise(rig), quiet(rig), i + 1
+        finally:
+            await rig.stop()
+    dead, obs, ok, sent = net.run(go(), timeout=1200)
+    rep.tick("soak", key=case, nontrivial=True, sample=case, n=sent, labels=("soak",))
+    if dead:
+        raise Violation("C06/reject/bridge-stops-delivering/soak", case, "sentinel delivered", obs)
+    if not ok:
+        what = ("callback" if obs["callbacks"] else "loop-exception" if obs["loop_errors"] else "warning")
+        raise Violation(f"C06/reject/{what}/soak", dict(case, sent=sent), "ignored silently", obs)
 
 
 def body_unknown(rep, case, sub="unknown-model"):
@@ -266,6 +321,8 @@ def subchecks(tier):
     if big:
         subs.append(Sub("unknown-model-all-codes", lambda rep, case: body_unknown(rep, case, "unknown-model-all-codes"),
                         cases=cases_unknown_all, shards=16, exhaustive=True))
+    subs.append(Sub("after-silence", body_silence, cases=cases_silence, shards=2, exhaustive=False))
+    subs.append(Sub("soak", body_soak, cases=lambda: [{"n": 300_000 if big else 70_000}], shards=1, exhaustive=False))
     subs.append(Sub("unknown-model-neighbours", lambda rep, case: body_unknown(rep, case, "unknown-model-neighbours"),
                     cases=cases_unknown_neighbours, shards=8, exhaustive=True))
     subs.append(Sub("unknown-model", body_unknown, strategy=strat_unknown, n=4000 if big else 300, shards=8 if big else 4,
